@@ -544,6 +544,32 @@ pub fn check_case(ctx: &mut Ctx, case: &Case, cfg: &Cfg, props: &[String], want_
         }
     }
 
+    // ---- C03 on a perturbed copy of the output: the first multi-line literal is shifted (its value is unchanged), so
+    //      that literals which are already in place and literals which are not meet on one logical line
+    if has(props, "C03") && wf && out.contains("\'\'\'\n") {
+        if let Ok(tks) = lex(&out) {
+            if let Some(t) = tks.iter().find(|t| t.kind == "TextLiteral(MultiLine)" && ml_value(t.text(&out)).is_some()) {
+                let lit = t.text(&out);
+                let shifted: String = lit.split('\n').enumerate().map(|(k, l)| if k == 0 || l.is_empty() { l.to_string() } else { format!("   {l}") }).collect::<Vec<_>>().join("\n");
+                let x2 = format!("{}{}{}", &out[..t.content_start()], shifted, &out[t.end()..]);
+                let r1 = ctx.run(&x2, cfg, &[], true);
+                if let Ok(y1) = &r1.out {
+                    let i1 = res.session.call(&r1, wf);
+                    let r2 = ctx.run(y1, cfg, &[], false);
+                    let i2 = res.session.call(&r2, wf);
+                    res.session.rel("idem", i1, i2);
+                    bump(&mut res, "C03");
+                    if let Ok(y2) = &r2.out {
+                        if y2 != y1 {
+                            let site = if has_step(&r1.events, "stale_cache_hit") { " [site: re-flow reused a child-line solution cached before strings were re-indented]" } else { "" };
+                            res.viols.push(Viol { prop: "C03", clause: "idempotent", detail: format!("(after shifting the first multi-line literal of the formatted text) {}{site}", first_diff(y1, y2)) });
+                        }
+                    }
+                }
+            }
+        }
+    }
+
     // ---- C09 line endings
     if has(props, "C09") {
         let shared_ml = final_stage(&base.events).is_some_and(|fin| {
